@@ -257,13 +257,29 @@ func c04(r *core.Run) {
 				}
 			}
 			closureArms[tn] = typeSwitchArms(cl)
-			// the recovered panic must not be re-raised: no Panic instruction reachable in the closure other than inside callee funnels
+			// the recovered panic must not be replaced by a new one: no explicit panic reachable from the
+			// closure, neither in its own body nor (flag-sensitively) in the library functions it calls.
 			for _, b := range cl.Blocks {
 				for _, in := range b.Instrs {
-					if pn, ok := in.(*ssa.Panic); ok {
+					if pn, ok := in.(*ssa.Panic); ok && !cres.Before[pn].Empty() {
 						r.Bad("R2", core.FuncName(cl), "no-repanic", p.InstrPos(pn), "the recover closure panics: a handler panic would take the worker down")
 					}
 				}
+			}
+			pm := &panicModel{m: m, memo: map[panicKey]string{}}
+			for _, c := range core.Calls(cl) {
+				cal := c.Common().StaticCallee()
+				if cal == nil || cal.Blocks == nil || cal.Pkg != d.Pkg {
+					continue
+				}
+				why := ""
+				for _, st := range cres.Before[c].List() {
+					if w := pm.mayPanic(cal, st, m.takesT(c), 0); w != "" {
+						why = w
+					}
+				}
+				r.Check(why == "", "R2", core.FuncName(cl), "no-panic-below:"+core.FuncName(cal), p.InstrPos(c),
+					"no explicit panic is reachable in this callee for the flag states it is called with", "a call made while recovering from a handler panic can itself panic ("+why+"): the new panic escapes the worker and takes the service down, the request stays unanswered")
 			}
 		}
 	}
@@ -477,4 +493,70 @@ func callersComplete(m *replyModel, root []*ssa.Function, fn *ssa.Function) bool
 		}
 	}
 	return n > 0
+}
+
+// panicModel answers: can an explicit panic instruction be reached in fn (or,
+// through static calls within the package, below it) when entered with the
+// request's replied flag in state st? Flag tests prune infeasible branches
+// (reply's "already replied" panic is unreachable from state No).
+type panicKey struct {
+	fn     *ssa.Function
+	st     int
+	tracks bool
+}
+
+type panicModel struct {
+	m    *replyModel
+	memo map[panicKey]string
+}
+
+func (pm *panicModel) mayPanic(fn *ssa.Function, st int, tracks bool, depth int) string {
+	k := panicKey{fn, st, tracks}
+	if v, ok := pm.memo[k]; ok {
+		return v
+	}
+	pm.memo[k] = "" // break recursion optimistically
+	if depth > 12 || fn.Blocks == nil {
+		return ""
+	}
+	var entry core.StateSet
+	if tracks {
+		entry = entry.Add(st)
+	} else {
+		entry = entry.Add(stNo).Add(stYes)
+	}
+	var res *core.FlowResult
+	if tracks {
+		res = pm.m.flow(fn, entry)
+	} else {
+		res = (&core.Flow{Fn: fn, Entry: entry}).Run()
+	}
+	out := ""
+	for _, b := range fn.Blocks {
+		for _, in := range b.Instrs {
+			if res.Before[in].Empty() {
+				continue
+			}
+			switch x := in.(type) {
+			case *ssa.Panic:
+				out = "explicit panic in " + core.FuncName(fn) + " at " + pm.m.p.InstrPos(x)
+			case *ssa.Call:
+				cal := x.Common().StaticCallee()
+				if cal == nil || cal.Blocks == nil || cal.Pkg != fn.Pkg {
+					continue
+				}
+				t := tracks && pm.m.takesT(x)
+				for _, s2 := range res.Before[in].List() {
+					if w := pm.mayPanic(cal, s2, t, depth+1); w != "" {
+						out = w
+					}
+				}
+			}
+			if out != "" {
+				pm.memo[k] = out
+				return out
+			}
+		}
+	}
+	return ""
 }
